@@ -489,6 +489,14 @@ def judge(d, res):
             if ncancel == 1 and d['handler_adapter'] and d['down_kind'] == 'bp' and not finished_first and \
                     'completed' not in res['down']['feedback']:
                 bad('disposal-did-not-cancel-the-peers-source', feedback=res['down']['feedback'][:10])
+            if cancel_recv is not None and d['handler_adapter'] and not finished_first:
+                # once the CANCEL has been received the adapter's publisher stops handing elements to the library
+                after = [e for e in world.events[cancel_recv:] if e['kind'] == 'queue' and e['ep'] == 's'
+                         and e['f'].get('sid') and e['f']['type'] == 'PAYLOAD' and e['f'].get('next')]
+                st['emission_after_cancel_checked'] = st.get('emission_after_cancel_checked', 0) + 1
+                if after:
+                    bad('handler-adapter-kept-emitting-after-cancel', elements_after_cancel=len(after),
+                        source_kind=d['down_kind'])
             if ncancel == 1 and not d['handler_adapter'] and not finished_first:
                 pub = world.inter[iid].get('publishers', {}).get(DIR_RESPONSE)
                 if pub is not None and pub.subscriber is not None and not pub.finished and pub.cancel_calls == 0:
